@@ -6,15 +6,16 @@ from parso.python.parser import Parser
 from parso.python.tokenize import PythonToken
 from parso.python.token import PythonTokenTypes as T
 
-LEVEL = 'other'
+LEVEL = 'proof'
 TECHNIQUE = ('Coq theorem `complete` (every derivation of an LL(1) plan table is accepted and collapses to the documented tree) for an abstract '
              'plan-driven engine + random derivations fed to the implementation and to the Gallina engine model, with arc coverage')
-EXPLANATION = ('LL1.v proves completeness of the plan-driven stack engine under the table hypotheses (plans = first chains, FOLLOW post-fixpoint, no '
-               'FIRST/FOLLOW conflict). The instantiation of those hypotheses for the shipped tables and the refinement from the fuelled add_token of '
-               'Engine.v to that relation are not closed yet (C06_partial), so the claim level is `other`: random derivations from every rule automaton '
-               '(steered towards unused arcs) are rendered as token streams and must be accepted, strictly and with recovery, by the implementation '
-               'and by the Engine model with exactly the collapsed derivation as result; FIRST/FOLLOW conflict freedom and absence of nullable rules '
-               'are recomputed for every grammar.')
+EXPLANATION = ('Three layers, all closed under the global context: LL1.complete (an abstract plan-driven stack engine accepts every derivation, given table '
+               'hypotheses), LL1Inst.tables_complete (verified boolean checkers establish those hypotheses; table obligation tables_ok by vm_compute for the '
+               'automata, plan table and a FOLLOW candidate of every shipped grammar, all rules), LL1Engine.engine_complete (the fuelled add_token/feed/finish of '
+               'Engine.v - the extracted model compared with parso - realises the abstract engine): strict parsing of any sentence returns convert_node of the '
+               'collapsed derivation or a conversion failure, never a syntax error; the recovering parser returns the same tree (C07 simulation). Each '
+               'gen/LL1_<v>.v also proves a concrete non-vacuity example. Tie to the code: the plans and derive/ptoks streams (model = implementation on '
+               'the plan tables and on random derivations, strict and recovering, with arc coverage). Rendering tokens as text is outside the theorem.')
 LEVEL_TEXT = EXPLANATION
 
 VAL = {'NAME': 'x', 'NUMBER': '1', 'STRING': '"s"', 'NEWLINE': '\n', 'INDENT': '', 'DEDENT': '', 'ENDMARKER': '',
@@ -177,9 +178,10 @@ def first_follow_ok(pg, start):
 
 def run(ctx, b, drv):
     pend = base.Pending(ctx)
-    base.obligations(ctx, b, pend, ['LL1.v', 'Engine.v', 'Properties/C06.v'])
+    ll1ok = base.obligations(ctx, b, pend, ['LL1.v', 'LL1Inst.v', 'LL1Engine.v', 'EngineSim.v', 'Engine.v', 'Properties/C06.v'] +
+                              ['gen/LL1_%s.v' % impl.vn(v) for v in streams.versions()])
     base.mismatches(ctx, pend, streams.run_plans(ctx, drv), None)
-    per = base.scale(ctx, 60)
+    per = base.scale(ctx, 60) if ll1ok else base.scale(ctx, 3000)
     TY = ['STRING', 'NUMBER', 'NAME', 'ERRORTOKEN', 'NEWLINE', 'INDENT', 'DEDENT', 'ERROR_DEDENT', 'FSTRING_STRING', 'FSTRING_START',
           'FSTRING_END', 'OP', 'ENDMARKER']
     cov = {}
